@@ -60,6 +60,19 @@ class Closure:
     def __init__(self, node, env): self.node, self.env = node, env
 
 
+class SymArr:
+    """Array/slice indexed by symbolic terms: equal index terms give the same element, different index terms give
+    unrelated elements (sound: nothing is assumed about them)."""
+    def __init__(self, factory, length=None):
+        self.factory, self.memo, self.length = factory, {}, length
+
+    def select(self, interp, env, node, i):
+        if self.length is not None:
+            interp.panic_if(env, node, And(Le(Const(0, "Int"), i), Lt(i, self.length)), "index")
+        if i not in self.memo: self.memo[i] = self.factory(i)
+        return self.memo[i]
+
+
 class Res:
     """Result<(),()>-like: ok tag."""
     def __init__(self, ok, val=None, err=None): self.ok, self.val, self.err = tm.lift(ok), val, err
@@ -90,6 +103,7 @@ def merge(c, a, b):
     if a is None: return b
     if b is None: return a
     if isinstance(a, Closure) and isinstance(b, Closure) and a.node is b.node: return a
+    if isinstance(a, SymArr) and a is b: return a
     raise Unsupported("merge of %s and %s" % (type(a).__name__, type(b).__name__))
 
 
@@ -198,7 +212,7 @@ class Interp:
             if op not in ("*", "/"): raise Unsupported("vec %s scalar" % op)
             return Vec([self.arith(env, node, op, x, b) for x in a.c])
         if isinstance(a, T) and isinstance(b, Vec):
-            if op != "*": raise Unsupported("scalar %s vec" % op)
+            if op not in ("*", "/"): raise Unsupported("scalar %s vec" % op)
             return Vec([self.arith(env, node, op, a, y) for y in b.c])
         raise Unsupported("arith %s on %s,%s" % (op, type(a).__name__, type(b).__name__))
 
@@ -769,6 +783,9 @@ class Interp:
                 return det(cols)
             raise Unsupported("Mat." + m)
         if isinstance(recv, T): return self.scalar_method(env, n, recv, m, args)
+        if isinstance(recv, SymArr):
+            if m == "len" and recv.length is not None: return recv.length
+            if m in ("clone", "to_vec", "iter", "as_ref"): return recv
         if isinstance(recv, Arr):
             if m == "len":
                 return recv.length if recv.length is not None else Const(len(recv.e), "Int", "usize")
@@ -858,7 +875,7 @@ class Interp:
         raise Unsupported("scalar method %s on %s" % (m, x.sort))
 
 
-def run_function(fn, inputs, ctx=None, interp_cls=Interp, consts=None, self_ty=None, features=None):
+def run_function(fn, inputs, ctx=None, interp_cls=Interp, consts=None, self_ty=None, features=None, n_stmts=None):
     """Symbolically execute a vx fn node on the given inputs (dict name->value, 'self' for receivers).
     Returns (result value, final env, ctx, interp)."""
     ctx = ctx or Ctx()
@@ -874,6 +891,9 @@ def run_function(fn, inputs, ctx=None, interp_cls=Interp, consts=None, self_ty=N
             while pat["k"] == "ptype": pat = pat["pat"]
             if pat["k"] != "pident": raise Unsupported("param pattern")
             env.vars[pat["name"]] = inputs[pat["name"]]
-    v = it.exec_block(env, fn["body"])
+    body = fn["body"]
+    if n_stmts is not None:
+        body = dict(body); body["stmts"] = body["stmts"][:n_stmts]
+    v = it.exec_block(env, body)
     v = it.finish_returns(env, v)
     return v, env, ctx, it
